@@ -219,6 +219,25 @@ def run(res, rng, tier, model_ok, replay=None):
                         "pred": canonical({0: ("s",)}), "key": hash(body), "klass": "latin1-strings(impl-only)"})
         vcdfam.run_both(res, lat, "c06l", False)
     vcdfam.run_both(res, cases, "c06", model_ok)
+    if not replay:
+        # the corpus files of all three formats through the public API: every variable - sub-range variables of GHW files
+        # included - reports values of exactly its declared width, in the smallest sufficient kind, real / string as declared,
+        # and never the same value twice in a row (harness command canonfile)
+        import glob
+        import os
+        files = sorted(f for f in glob.glob("/repo/wellen/inputs/**/*", recursive=True)
+                       if f.rsplit(".", 1)[-1] in ("vcd", "fst", "ghw") and os.path.isfile(f)
+                       and 0 < os.path.getsize(f) < (300000 if tier == "quick" else 5000000)
+                       and "with_errors" not in f and "sigmoid_tb" not in f and "ghdl_issue_538" not in f)
+        outs = core.run_cases(core.WV_DEBUG, ["canonfile " + f for f in files], "c06f", timeout=1200)
+        for f, o in zip(files, outs):
+            res.evaluations += 1
+            ext = f.rsplit(".", 1)[-1]
+            res.distribution["corpus-" + ext] = res.distribution.get("corpus-" + ext, 0) + 1
+            if o.startswith("ok "):
+                res.nontrivial.add(f)
+            elif o != "ERR":
+                res.violations.append(("canonfile " + f, o[:1500], "ok <n> variables", "a corpus file loads with signals that are not in canonical form"))
     res.samples = [c["line"][:300] for c in cases[:2]] + [cases[-1]["line"][:300]]
 
 
